@@ -8,6 +8,7 @@
 #include <time.h>
 
 int mx_actor = 0;
+int mx_in_lib = 0;
 long mx_now = 1790000000L;  /* 2026-09-21; inside the validity of the sample certificates */
 unsigned long mx_entropy_calls, mx_entropy_bytes;
 static uint64_t mx_st[8] = { 1, 2, 3, 4, 5, 6, 7, 8 };
